@@ -5,6 +5,7 @@ LLUDP = "hippolyzer/lib/proxy/lludp_proxy.py"
 PCIRC = "hippolyzer/lib/proxy/circuit.py"
 BCIRC = "hippolyzer/lib/base/message/circuit.py"
 MSG = "hippolyzer/lib/base/message/message.py"
+MH = "hippolyzer/lib/base/message/message_handler.py"
 
 _HOOK_TAIL = ("            return hook_func(*args, **kwargs)\n"
               "        except:\n"
@@ -244,6 +245,31 @@ VARIANTS = [
      "new": ("            ret = cls._call_module_hooks(module, hook_name, *args, call_async=call_async, **kwargs)\n"
              "            if ret:\n                claimed = ret\n                break\n        else:\n            claimed = None\n\n"
              "        return claimed\n")},
+    # ------------------------------------------------------------------ R8
+    {"name": "R8 wait_for handler removed from the first notifier only", "file": MH, "expect": "C07.R8",
+     "old": "            # Make sure to unregister this handler for all message types\n            for n in notifiers:\n"
+            "                n.unsubscribe(_handler)\n",
+     "new": "            notifiers[0].unsubscribe(_handler)\n"},
+    {"name": "R8 wait_for handler unsubscribes only when it completed the future", "file": MH, "expect": "C07.R8",
+     "old": "            if not fut.done():\n                fut.set_result(message)\n"
+            "            # Make sure to unregister this handler for all message types\n            for n in notifiers:\n"
+            "                n.unsubscribe(_handler)\n",
+     "new": "            if not fut.done():\n                fut.set_result(message)\n"
+            "                for n in notifiers:\n                    n.unsubscribe(_handler)\n"},
+    {"name": "R8 subscribe_async cleanup no longer in a finally", "file": MH, "expect": "C07.R8",
+     "old": "        try:\n            yield _get_wrapper\n        finally:\n            for n in notifiers:\n"
+            "                n.unsubscribe(_handler_wrapper)\n",
+     "new": "        yield _get_wrapper\n        for n in notifiers:\n            n.unsubscribe(_handler_wrapper)\n"},
+    {"name": "P R8 unsubscribe everywhere before completing the future", "file": MH, "expect": "silent",
+     "old": "            if not fut.done():\n                fut.set_result(message)\n"
+            "            # Make sure to unregister this handler for all message types\n            for n in notifiers:\n"
+            "                n.unsubscribe(_handler)\n",
+     "new": "            for event in notifiers:\n                event.unsubscribe(_handler)\n"
+            "            if not fut.done():\n                fut.set_result(message)\n"},
+    {"name": "P R8 notifier list kept under another name", "file": MH, "expect": "silent",
+     "old": "        notifiers = self._subscribe_all(message_names, _handler_wrapper, predicate=predicate)\n",
+     "new": "        registered = self._subscribe_all(message_names, _handler_wrapper, predicate=predicate)\n"
+            "        notifiers = registered\n"},
     # ------------------------------------------------------------------ documented limits
     {"name": "R4 queued original dropped only when reliable", "file": LLUDP, "expect": "C07.R4",
      "old": "        if message.queued:\n            region.circuit.drop_message(message)\n",
